@@ -215,6 +215,11 @@ func runC20(c *ctxT) {
 		if r.Bool() {
 			key = s.univ[r.Intn(len(s.univ))].id // an existing node's id
 		}
+		if r.Intn(4) == 0 { // a key next to the all-zero id: every node is farther from it than the zero value of a PeerID
+			for j := 0; j < 8+r.Intn(24); j++ {
+				key[j] = 0
+			}
+		}
 		initialSx := nodesSx(s.initial)
 		initial := copyNodes(s.initial)
 		op := r.Intn(4)
